@@ -15,7 +15,7 @@
                  from scratch by closure iteration; __sro__ must be the order a freshly built
                  graph gets (Model.Ro.fresh_sro); __iro__ its interface part; the observed
                  __bases__ must be the ones that were assigned. *)
-From Coq Require Import List Arith Bool NArith.
+From Coq Require Import List Arith Bool.
 Import ListNotations.
 From ZI Require Export Lib.Util Model.Ro Model.SpecGraph.
 
@@ -25,23 +25,38 @@ Definition nsnap :=
   (node * bool * list node * list node * list node * list node * list node * list node
    * option (list node))%type.
 Definition step_t := (list op * list nsnap)%type.
+(* transported step: operations, ids that disappeared, rows that are new or changed *)
+Definition dstep := (list op * list node * list nsnap)%type.
 (* an exception anywhere in the history is reported as [true] and fails both checks *)
-Definition case_t := (bool * list step_t)%type.
+Definition case_t := (bool * list dstep)%type.
 
-(* compact literal form used by the generated case files: a list of creation numbers (< 64) is
-   one base-64 numeral with a leading sentinel digit 1; 0 stands for "no providedBy row" *)
-Fixpoint dec (fuel : nat) (n : N) : list node :=
-  match fuel with
-  | 0 => []
-  | S f => if N.leb n 1 then [] else N.to_nat (N.modulo n 64) :: dec f (N.div n 64)
-  end.
-Definition dl (n : N) : list node := dec 200 n.
-Definition sn (i : node) (k : bool) (b s r e x n p : N) : nsnap :=
-  (i, k, dl b, dl s, dl r, dl e, dl x, dl n, if N.eqb p 0 then None else Some (dl p)).
+(* ---- transport format of the generated case files (compression only): creation numbers are
+   written as the constants n0 .. n63 (number literals are slow to parse by the thousand), and a
+   step lists only the rows that differ from the previous step plus the ids that disappeared;
+   [expand] rebuilds the full snapshots that the checks below work on. *)
+Definition sn (i : node) (k : bool) (b s r e x n : list node) : nsnap := (i, k, b, s, r, e, x, n, None).
+Definition snp (i : node) (k : bool) (b s r e x n p : list node) : nsnap := (i, k, b, s, r, e, x, n, Some p).
 
 Definition sn_id (s : nsnap) : node := let '(i, _, _, _, _, _, _, _, _) := s in i.
 Definition sn_if (s : nsnap) : bool := let '(_, k, _, _, _, _, _, _, _) := s in k.
 Definition sn_bases (s : nsnap) : list node := let '(_, _, b, _, _, _, _, _, _) := s in b.
+
+Fixpoint insert_row (d : nsnap) (l : list nsnap) : list nsnap :=
+  match l with
+  | [] => [d]
+  | s :: l' => if Nat.leb (sn_id d) (sn_id s) then d :: l else s :: insert_row d l'
+  end.
+
+Definition apply_delta (prev : list nsnap) (gone : list node) (delta : list nsnap) : list nsnap :=
+  let keep := filter (fun s => negb (mem (sn_id s) gone)
+                               && negb (existsb (fun d => Nat.eqb (sn_id d) (sn_id s)) delta)) prev in
+  fold_right insert_row keep delta.
+
+Fixpoint expand (prev : list nsnap) (ds : list dstep) : list step_t :=
+  match ds with
+  | [] => []
+  | (ops, gone, delta) :: r => let cur := apply_delta prev gone delta in (ops, cur) :: expand cur r
+  end.
 
 Definition idr (l : list node) : list node := l.
 
@@ -67,7 +82,7 @@ Fixpoint run_model (st : state) (steps : list step_t) : list (list nsnap) :=
       model_snap st' (has_prov sn) :: run_model st' r
   end.
 
-Definition model_out (c : case_t) : list (list nsnap) := run_model init (snd c).
+Definition model_out (c : case_t) : list (list nsnap) := run_model init (expand [] (snd c)).
 
 Definition olnat_eqb := option_eqb lnat_eqb.
 
@@ -78,7 +93,8 @@ Definition nsnap_eqb (a b : nsnap) : bool :=
   && lnat_eqb e1 e2 && lnat_eqb x1 x2 && lnat_eqb n1 n2 && olnat_eqb p1 p2.
 
 Definition check_model (c : case_t) : bool :=
-  let '(exc, steps) := c in
+  let '(exc, dsteps) := c in
+  let steps := expand [] dsteps in
   negb exc
   && hist_ok idr init (flat_map fst steps)
   && list_eqb (list_eqb nsnap_eqb) (run_model init steps) (map snd steps).
@@ -135,4 +151,21 @@ Definition spec_step (st : step_t) : bool :=
   && forallb (assigned_ok sn) ops.
 
 Definition check_spec (c : case_t) : bool :=
-  let '(exc, steps) := c in negb exc && forallb spec_step steps.
+  let '(exc, dsteps) := c in negb exc && forallb spec_step (expand [] dsteps).
+
+Definition n0 := 0. Definition n1 := 1. Definition n2 := 2. Definition n3 := 3.
+Definition n4 := 4. Definition n5 := 5. Definition n6 := 6. Definition n7 := 7.
+Definition n8 := 8. Definition n9 := 9. Definition n10 := 10. Definition n11 := 11.
+Definition n12 := 12. Definition n13 := 13. Definition n14 := 14. Definition n15 := 15.
+Definition n16 := 16. Definition n17 := 17. Definition n18 := 18. Definition n19 := 19.
+Definition n20 := 20. Definition n21 := 21. Definition n22 := 22. Definition n23 := 23.
+Definition n24 := 24. Definition n25 := 25. Definition n26 := 26. Definition n27 := 27.
+Definition n28 := 28. Definition n29 := 29. Definition n30 := 30. Definition n31 := 31.
+Definition n32 := 32. Definition n33 := 33. Definition n34 := 34. Definition n35 := 35.
+Definition n36 := 36. Definition n37 := 37. Definition n38 := 38. Definition n39 := 39.
+Definition n40 := 40. Definition n41 := 41. Definition n42 := 42. Definition n43 := 43.
+Definition n44 := 44. Definition n45 := 45. Definition n46 := 46. Definition n47 := 47.
+Definition n48 := 48. Definition n49 := 49. Definition n50 := 50. Definition n51 := 51.
+Definition n52 := 52. Definition n53 := 53. Definition n54 := 54. Definition n55 := 55.
+Definition n56 := 56. Definition n57 := 57. Definition n58 := 58. Definition n59 := 59.
+Definition n60 := 60. Definition n61 := 61. Definition n62 := 62. Definition n63 := 63.
